@@ -1,5 +1,5 @@
 SPECIFICATION Spec
-CONSTANTS Workloads = {"catalogue", "dns", "tags", "reasm", "addr", "radiotap", "wifi", "build", "pcap"}
+CONSTANTS Workloads = {"catalogue", "dns", "tags", "reasm", "addr", "radiotap", "wifi", "build", "pcap", "handshakes"}
   Ks = {3, 4, 8, 12, 16}
   Iters = 4
   Reps = 2
